@@ -55,6 +55,21 @@ def image_set():
             spt = 10 if cont == 'hfe-fm' else 18
             data, _ = c06.build_damaged(cont, 2, spt, {(1, 3)} if how != 'data-mark' else {(1, spt - 1)}, how)
             im['h_%s_%s.%s' % (cont.replace('-', ''), how.replace('-', ''), ext)] = data
+    # HFE v3 streams with SKIPBITS / RAND opcodes: no semantic oracle is needed for a differential check
+    sf, _, _ = images.small_surface('acorn', 2, 10, total=20)
+    trs = flux.disc_to_tracks(sf, 2, 10, 0, 'FM')
+    streams = [flux.pack_lsb_first(flux.fm_to_hfe_cells(b)) for b, _, _ in trs]
+    rb = flux.revbits
+    for nm, pos, op in (('skip4mid', 700, [0xF3, 4]), ('skip1end', len(streams[0]) - 40, [0xF3, 1]), ('skip7start', 8, [0xF3, 7]),
+                        ('skip0', 900, [0xF3, 0]), ('skip9', 900, [0xF3, 9]), ('rand', 1200, [0xF4, 0x55]), ('badop', 1300, [0xF7])):
+        s0 = streams[0][:pos] + bytes(rb(x) for x in op) + streams[0][pos:]
+        # a stale copy of sector 0 after the opcode makes "what is decoded after it" visible
+        im['h_v3%s.hfe' % nm] = flux.hfe_image([[s0 + streams[0][:1400]] + streams[1:]], 'FM', 3)
+    # control characters in names and title (cat keeps a column counter that understands TAB, CR and LF)
+    ents = [disc.Entry(b'D\tE', b'Q', False, 0, 0, 10, 9), disc.Entry(b'A\tB', b'$', True, 0, 0, 10, 8), disc.Entry(b'YAK', b'Q', False, 0, 0, 10, 7),
+            disc.Entry(b'\tX', b'$', False, 0, 0, 10, 6), disc.Entry(b'CR\rX', b'$', False, 0, 0, 10, 5), disc.Entry(b'LF\nX', b'R', False, 0, 0, 10, 4),
+            disc.Entry(b'BS\x08', b'$', False, 0, 0, 10, 3), disc.Entry(b'PLAIN', b'$', False, 0, 0, 10, 2)]
+    im['ctl.ssd'] = disc.acorn_surface(disc.Volume(ents, b'TI\tTLE', 3, 2), 400, b'c')[:12 * 256]
     im['h_bad.ssd.gz'] = images.gz(v['ssd'])[:-5]
     b = bytearray(v['mmb']); b[16 + 15] = 0x55; im['h_status.mmb'] = bytes(b)
     im['h_empty.dsd'] = b''
@@ -122,7 +137,11 @@ def w_options(case):
                 r, tree = run_variant(d, fname, cmd, [], [], ui)
                 res['n'] += 1
                 if cmd[0] == 'cat' and r.status() == 'exit0' and base.status() == 'exit0':
-                    if cat_data(r.out) != cat_data(base.out):
+                    if cat_data(base.out)[0] == 'unparsed':
+                        # names with control characters: the layout cannot be parsed back; only the differential
+                        # checks (verbose/show-config above, build configurations in C19) use this image
+                        bump(res, 'cat-unparseable-skipped')
+                    elif cat_data(r.out) != cat_data(base.out):
                         res['viol'].append((sig + ':ui-changes-cat-data', '%s --ui %s: %r vs %r' % (fname, ui, cat_data(r.out)[:4], cat_data(base.out)[:4])))
                     else:
                         bump(res, 'cat-same-data')
